@@ -19,13 +19,13 @@ LEVEL_TEXT = ("Proof (F/M for rows and literals, partial for schema changes): on
 LEVEL_NOTE = ("Trusted: Coq kernel, Go harness + Python glue (value interning: distinct SQL values -> distinct ids). Modelled, not verified: schema diff / ALTER statements "
               "(only observed through the executed round trip + SHOW CREATE TABLE equality), the SQL parser beyond string-literal scanning, type-specific value "
               "formatting other than int / varchar / text / varbinary, keyless tables, PK changes.")
-THEOREMS = ["diff_exact", "diff_sorted", "patch_roundtrip", "patch_roundtrip_eq", "sql_string_roundtrip", "hex_roundtrip", "diff_counts", "oracle_on_model"]
+THEOREMS = ["diff_exact", "diff_sorted", "patch_roundtrip", "patch_roundtrip_eq", "sql_string_roundtrip", "hex_roundtrip", "diff_counts", "col_ddl_roundtrip", "ddl_counts_spec", "oracle_on_model"]
 RULE = ("two commits of t(pk, a int, s varchar, x text, v varbinary): first commit 0-6 rows, second commit = first with rows deleted/inserted/cells changed; values small ints, "
         "NULL, strings over an alphabet of quote, double quote, backslash, NUL, newline, CR, tab, ctrl-Z, backspace, %, _, backtick, semicolon, comment openers, a 2-byte UTF-8 char; "
         "binary values over all byte classes; 20% add-column and 15% drop-column second commits; per case 4 byte strings (all 256 byte values reachable) through the literal encoder; "
         "non-trivial = the two commits differ; distinct by case JSON")
 ASSUMPTIONS = ["varchar/text values are valid UTF-8 (invalid UTF-8 cannot be stored in those columns); arbitrary bytes go through varbinary and through the literal encoder directly"]
-REQUIRED_TAGS = ["rename", "modify", "renmod", "change", "needs-new-type", "str-backslash-only", "lit-backslash-only", "added", "removed", "modified", "null-to-value", "value-to-null", "str-quote", "str-backslash", "str-newline", "str-nul", "str-ctrlz", "binary",
+REQUIRED_TAGS = ["rename", "modify", "renmod", "needs-new-type", "str-backslash-only", "lit-backslash-only", "added", "removed", "modified", "null-to-value", "value-to-null", "str-quote", "str-backslash", "str-newline", "str-nul", "str-ctrlz", "binary",
                  "addcol", "dropcol", "empty-diff", "lit-highbyte"]
 
 TEXT_ALPHA = [b"a", b"b", b"'", b'"', b"\\", b"\n", b"\r", b"\t", b"\x00", b"\x1a", b"\x08", b"%", b"_", b"\xc3\xa9", b" ", b";", b"`", b"--", b"#", b"/*", b"\\n", b"''", b"\\'"]
@@ -55,7 +55,7 @@ COLS = ["a", "s", "x", "v"]
 
 def gen_one(rng):
     r = rng.random()
-    schema = "addcol" if r < 0.15 else ("dropcol" if r < 0.27 else ("rename" if r < 0.33 else ("modify" if r < 0.39 else ("renmod" if r < 0.47 else ("change" if r < 0.52 else "")))))
+    schema = "addcol" if r < 0.15 else ("dropcol" if r < 0.27 else ("rename" if r < 0.33 else ("modify" if r < 0.39 else ("renmod" if r < 0.50 else ""))))
     a = {}
     for k in rng.sample(range(1, 8), rng.randint(0, 6)):
         a[k] = [_cell(rng, c) for c in COLS]
@@ -103,8 +103,10 @@ def gen_cases(rng, tier):
               "b": [{"k": 1, "c": [{"i": 1}, {"s": bs, "k": "s"}, {"s": list(b"\\"), "k": "s"}, None]}, {"k": 2, "c": [None, {"s": list(b"a\\b"), "k": "s"}, None, None]}],
               "schema": "", "strs": [bs, list(b"\\"), list(b"x\\ny"), list(b"\\0")]}
     fixed3 = {"a": [{"k": 1, "c": [{"i": 1}, None, None, None]}], "b": [{"k": 1, "c": [{"i": 6000000000}, None, None, None]}], "schema": "renmod", "strs": []}
-    fixed4 = dict(fixed3, schema="change")
-    return [fixed, fixed2, fixed3, fixed4] + [gen_one(rng) for _ in range(n)]
+    # NOTE: a single `ALTER TABLE t CHANGE COLUMN a a2 bigint` gives the column a NEW tag; dolt_patch then emits DROP a + ADD a2
+    # and the replay puts a2 LAST (column order of the second commit is not reproduced).  Reported as a candidate finding
+    # (key schema-patch:retagged-column-moves-to-end); witness: dict(fixed3, schema="change").  Not generated until registered.
+    return [fixed, fixed2, fixed3] + [gen_one(rng) for _ in range(n)]
 
 
 # ---- canonical values and interning ----
